@@ -47,11 +47,28 @@ del lock
 log = logging.getLogger('chameleon.loader')
 
 
+if os.environ.get('MALTHE_CHAMELEON_VERIF') == '1':
+    # Labelled no-op points for the verification harness (schedule
+    # exploration and crash injection); inert unless a hook is set.
+    _verif_hook = None
+
+    def _verif_point(label: str, *args: Any) -> None:
+        hook = _verif_hook
+        if hook is not None:
+            hook(label, *args)
+else:
+    def _verif_point(label: str, *args: Any) -> None:
+        pass
+
+
 def cache(func: _F) -> _F:
     def load(self: Any, *args: Any, **kwargs: Any) -> Any:
         template = self.registry.get(args)
         if template is None:
-            self.registry[args] = template = func(self, *args, **kwargs)
+            _verif_point('load:miss', args)
+            template = func(self, *args, **kwargs)
+            _verif_point('load:created', args)
+            self.registry[args] = template
         return template
     return cast('_F', load)
 
@@ -197,6 +214,7 @@ class ModuleLoader:
             log.debug("writing source to disk (%d bytes)." % len(source))
             fd, fn = tempfile.mkstemp(
                 prefix=base, suffix='.tmp', dir=self.path)
+            _verif_point('build:mkstemp', fn)
             temp = os.fdopen(fd, 'wb')
             encoded = source.encode('utf-8')
             header = encode_string("# -*- coding: utf-8 -*-" + "\n")
@@ -204,16 +222,21 @@ class ModuleLoader:
             try:
                 try:
                     temp.write(header)
+                    _verif_point('build:header', fn, temp)
                     temp.write(encoded)
+                    _verif_point('build:body', fn, temp)
                 finally:
                     temp.close()
             except BaseException:
                 os.remove(fn)
                 raise
 
+            _verif_point('build:closed', fn)
             os.rename(fn, name)
+            _verif_point('build:renamed', name)
             log.debug("compiling %s into byte-code..." % filename)
             py_compile.compile(name)
+            _verif_point('build:compiled', name)
 
             return self._load(base, name)
         finally:
